@@ -321,7 +321,9 @@ void parse_itmz_token_chain(mmd_engine * e, token * chain) {
 					}
 
 					if (walker->type == ITMZ_TOPIC_SELF_CLOSE) {
-						header_level--;
+						if (header_level > 0) {
+							header_level--;
+						}
 					}
 
 					break;
@@ -333,7 +335,9 @@ void parse_itmz_token_chain(mmd_engine * e, token * chain) {
 					break;
 
 				case ITMZ_TOPIC_CLOSE:
-					header_level--;
+					if (header_level > 0) {
+						header_level--;
+					}
 					break;
 
 				default:
